@@ -28,9 +28,20 @@ def gen_image(rng, tier):
         shape = (rng.randint(24, 56), rng.randint(24, 56))
     else:
         shape = (rng.randint(10, 16), rng.randint(16, 24), rng.randint(16, 24))
-    kind = rng.choice(['noise', 'noise', 'noise_float', 'blobs', 'blobs', 'blobs_noisy', 'flat', 'twins', 'levels', 'noise16'])
+    kind = rng.choice(['noise', 'noise', 'noise_float', 'blobs', 'blobs', 'blobs_noisy', 'flat', 'twins', 'levels', 'noise16', 'signed', 'signed'])
     if kind == 'noise':
         im = rs.randint(0, 256, shape).astype(np.uint8)
+    elif kind == 'signed':
+        # signed integer image with negative pixels (dark-frame subtracted camera data): a negative pixel next to a
+        # bright one pulls an unclipped centroid out of the mask, even out of the image
+        im = rs.randint(-120, 136, shape).astype(rng.choice([np.int16, np.int32]))
+        if rng.random() < 0.5:
+            im = (im // 8) * (rs.rand(*shape) < 0.15)          # sparse: isolated bright pixels with negative neighbours
+            im = im.astype(np.int16)
+            for _ in range(rng.randint(1, 4)):
+                c = tuple(rng.randint(3, n - 4) for n in shape)
+                im[c] = rng.randint(20, 60)
+                d = list(c); d[-1] += rng.choice([-1, 1]); im[tuple(d)] = -(int(im[c]) - rng.randint(1, 3))
     elif kind == 'noise16':
         im = rs.randint(0, 4096, shape).astype(np.uint16)
     elif kind == 'noise_float':
@@ -131,6 +142,8 @@ def head(raw_image, diameter, separation=None, noise_size=1, smoothing_size=None
     if threshold is None:
         threshold = 1 / 255. if is_float else 1
     image = bandpass(raw_image, noise_size, smoothing_size, threshold) if preprocess else raw_image
+    if not preprocess and np.issubdtype(image.dtype, np.signedinteger):
+        image = image.clip(min=0)          # locate clips negative pixels of signed images (fix F18), as it does for floats
     dtype = np.uint8 if is_float else raw_image.dtype
     scale_factor, image = convert_to_int(image, dtype)
     margin = tuple(max(rad, sep // 2 - 1, sm // 2) for rad, sep, sm in zip(radius, separation, smoothing_size))
